@@ -19,7 +19,10 @@ from mc.report import Run
 
 PROP = "C12"
 FAMILY = ["residual", "scale_bias", "mean_hw", "two_inputs", "mixed_outputs", "unused_input", "output_is_input",
-          "conv", "inner_transposes", "relu_chain", "reduce_channel", "concat_channels"]
+          "conv", "inner_transposes", "relu_chain", "reduce_channel", "concat_channels", "mean_two_consumers",
+          "sym_mean_fill", "sym_add_plane", "sym_residual_hw", "sym_two_inputs"]
+SYM_SPEC = ("B", "H", "W", 3)
+SYM_BINDINGS = [(2, 4, 5, 3), (1, 3, 3, 3), (3, 2, 6, 3)]
 
 
 def _family(name: str):
@@ -54,6 +57,19 @@ def _family(name: str):
         return (lambda x: (jnp.sum(x, axis=3, keepdims=True), x[..., :1])), [S]
     if name == "concat_channels":
         return (lambda a, b: jnp.concatenate([a, b * 2.0], axis=3)), [S, S]
+    if name == "mean_two_consumers":
+        def f(x):
+            m = jnp.mean(x, axis=(1, 2), keepdims=True)
+            return m, x - m
+        return f, [S]
+    if name == "sym_mean_fill":
+        return (lambda x: jnp.broadcast_to(jnp.mean(x, axis=(1, 2, 3), keepdims=True), x.shape) + x * 0.0), [SYM_SPEC]
+    if name == "sym_add_plane":
+        return (lambda x: x + jnp.ones((x.shape[1], x.shape[2], x.shape[3]), x.dtype) * x.shape[2]), [SYM_SPEC]
+    if name == "sym_residual_hw":
+        return (lambda x: jax.nn.relu(x - 1.0) + x * x.shape[1]), [SYM_SPEC]
+    if name == "sym_two_inputs":
+        return (lambda a, b: (a + b * a.shape[2], jnp.sum(b, axis=(1, 2)))), [SYM_SPEC, SYM_SPEC]
     raise ValueError(name)
 
 
@@ -127,6 +143,29 @@ def job_family(p: Dict[str, Any]) -> Dict[str, Any]:
     import jax.numpy as jnp
     from jax2onnx import to_onnx
     fn, specs = _family(p["program"])
+    if p["program"].startswith("sym_"):
+        # symbolic spatial dims on flagged inputs: exported with symbols, executed for several bindings
+        total: Dict[str, Any] = {"status": "ok", "bad": [], "configs": 0, "flagged_configs": 0, "digests": [], "four_d": None}
+        cache: Dict[Any, Any] = {}
+
+        def export(fi, fo):
+            key = (tuple(fi or ()), tuple(fo or ()))
+            if key not in cache:
+                cache[key] = to_onnx(fn, specs, inputs_as_nchw=fi, outputs_as_nchw=fo)
+            return cache[key]
+        for shape in SYM_BINDINGS:
+            shapes = [shape for _ in specs]
+            xs = [_data(s, k) for k, s in enumerate(shapes)]
+            exp = [np.asarray(v) for v in jax.tree_util.tree_leaves(jax.device_get(fn(*[jnp.asarray(x) for x in xs])))]
+            r1 = _run_flag_matrix(export, len(specs), shapes, exp)
+            if r1.get("status") != "ok":
+                return r1
+            total["bad"] += [f"binding {shape}: {b}" for b in r1["bad"]]
+            total["configs"] += r1["configs"]
+            total["flagged_configs"] += r1["flagged_configs"]
+            total["digests"] = r1["digests"]
+            total["four_d"] = r1["four_d"]
+        return total
     xs = [_data(s, k) for k, s in enumerate(specs)]
     exp = [np.asarray(v) for v in jax.tree_util.tree_leaves(jax.device_get(fn(*[jnp.asarray(x) for x in xs])))]
     r = _run_flag_matrix(lambda fi, fo: to_onnx(fn, specs, inputs_as_nchw=fi, outputs_as_nchw=fo), len(specs), specs, exp)
